@@ -740,15 +740,27 @@ where
         crate::verif::sched_point("win.exec.before_rewind");
 
         if let Some(next) = next {
+            #[cfg(grevm_verif)]
+            crate::verif::event(crate::verif::Event::RewindCall { index: txid });
             self.scheduler_ctx.rewind_validation_to(txid);
+            #[cfg(grevm_verif)]
+            crate::verif::event(crate::verif::Event::RewindReturn { index: txid });
             drop(tx_state);
             return self.execution_task(next);
         }
         if conflict {
+            #[cfg(grevm_verif)]
+            crate::verif::event(crate::verif::Event::RewindCall { index: txid + 1 });
             self.scheduler_ctx.rewind_validation_to(txid + 1);
+            #[cfg(grevm_verif)]
+            crate::verif::event(crate::verif::Event::RewindReturn { index: txid + 1 });
         } else {
             if write_new_locations {
+                #[cfg(grevm_verif)]
+                crate::verif::event(crate::verif::Event::RewindCall { index: txid });
                 self.scheduler_ctx.rewind_validation_to(txid);
+                #[cfg(grevm_verif)]
+                crate::verif::event(crate::verif::Event::RewindReturn { index: txid });
             } else {
                 tx_state.status = TransactionStatus::Validating;
                 return Some(Task::Validation(TxVersion::new(txid, incarnation)));
@@ -796,6 +808,8 @@ where
         // Every read must still resolve to the same latest preceding incarnation, and that write
         // must not be an estimate. A storage-origin read remains valid only when no preceding
         // multi-version write exists.
+        #[cfg(grevm_verif)]
+        crate::verif::event(crate::verif::Event::ValidateStart { txid, incarnation });
         let mut conflict = false;
         let mut dependency: Option<TxId> = None;
         for (location, version) in result.read_set.iter() {
@@ -856,7 +870,11 @@ where
         crate::verif::event(crate::verif::Event::Validate { txid, incarnation, ts, ok: !conflict });
         // update transaction status
         tx_state.status = if conflict {
+            #[cfg(grevm_verif)]
+            crate::verif::event(crate::verif::Event::RewindCall { index: txid + 1 });
             self.scheduler_ctx.rewind_validation_to(txid + 1);
+            #[cfg(grevm_verif)]
+            crate::verif::event(crate::verif::Event::RewindReturn { index: txid + 1 });
             TransactionStatus::Conflict
         } else {
             self.scheduler_ctx.unconfirmed(txid, ts);
